@@ -114,6 +114,7 @@ loop:
 		u >>= childrenBitsLo
 		hi = u & (1<<childrenBitsHi - 1)
 		u >>= childrenBitsHi
+		parentOnly := u&(1<<childrenBitsNodeType-1) == nodeTypeParentOnly
 		switch u & (1<<childrenBitsNodeType - 1) {
 		case nodeTypeNormal:
 			suffix = 1 + dot
@@ -123,6 +124,12 @@ loop:
 		}
 		u >>= childrenBitsNodeType
 		wildcard = u&(1<<childrenBitsWildcard-1) != 0
+		if parentOnly && !wildcard {
+			// No rule ends at a node that exists only as the parent of
+			// other rules, so it must not change the ICANN flag of the
+			// prevailing rule.
+			icannNode = icann
+		}
 		if !wildcard {
 			icann = icannNode
 		}
